@@ -423,6 +423,96 @@ fn build_foreign_project(rng: &mut Rng) -> (Vec<(std::path::PathBuf, String)>, V
     (vec![(std::path::PathBuf::from("Lib/lib.gom"), lib), (std::path::PathBuf::from("main.gom"), main)], expected, cells)
 }
 
+/// Projects in which a type parameter is bounded by two traits of the SAME name from different packages (or Main's own
+/// trait and an imported one), both declaring the method: the dot call is ambiguous and must be rejected, while the
+/// path forms name their trait and must run that trait's implementation (added after a seeded change that
+/// de-duplicated candidate traits by their unqualified name).
+fn check_same_named_traits(c: &mut Case, label: &str, variant: usize, scratch: &std::path::Path) {
+    use std::path::PathBuf;
+    let lib = |pkg: &str, tag: &str| -> (PathBuf, String) {
+        (
+            PathBuf::from(pkg).join("lib.gom"),
+            format!("package {}\n\ntrait Show {{\n    fn show(Self) -> string;\n}}\n\nimpl Show for int32 {{\n    fn show(self: int32) -> string {{ \"{}:\" + int32_to_string(self) }}\n}}\n", pkg, tag),
+        )
+    };
+    // (files, ambiguous?, expected stdout when not ambiguous)
+    let (files, must_reject, expected): (Vec<(PathBuf, String)>, bool, &str) = match variant {
+        0 => (
+            vec![lib("Alpha", "alpha"), lib("Beta", "beta"), (PathBuf::from("main.gom"), "package Main\nimport Alpha\nimport Beta\n\nfn describe[T: Beta::Show + Alpha::Show](x: T) -> string { x.show() }\n\nfn main() -> unit {\n    let _ = string_println(describe(7));\n    ()\n}\n".to_string())],
+            true,
+            "",
+        ),
+        1 => (
+            vec![lib("Alpha", "alpha"), lib("Beta", "beta"), (PathBuf::from("main.gom"), "package Main\nimport Alpha\nimport Beta\n\nfn describe[T: Alpha::Show + Beta::Show](x: T) -> string { x.show() }\n\nfn main() -> unit {\n    let _ = string_println(describe(7));\n    ()\n}\n".to_string())],
+            true,
+            "",
+        ),
+        2 => (
+            vec![lib("Lib", "lib"), (PathBuf::from("main.gom"), "package Main\nimport Lib\n\ntrait Show {\n    fn show(Self) -> string;\n}\n\nimpl Show for int32 {\n    fn show(self: int32) -> string { \"main:\" + int32_to_string(self) }\n}\n\nfn describe[T: Show + Lib::Show](x: T) -> string { x.show() }\n\nfn main() -> unit {\n    let _ = string_println(describe(7));\n    ()\n}\n".to_string())],
+            true,
+            "",
+        ),
+        // controls: the same bounds, every call names its trait
+        3 => (
+            vec![lib("Alpha", "alpha"), lib("Beta", "beta"), (PathBuf::from("main.gom"), "package Main\nimport Alpha\nimport Beta\n\nfn describe[T: Beta::Show + Alpha::Show](x: T) -> string { Beta::Show::show(x) + \"/\" + Alpha::Show::show(x) }\n\nfn main() -> unit {\n    let _ = string_println(describe(7));\n    ()\n}\n".to_string())],
+            false,
+            "beta:7/alpha:7\n",
+        ),
+        _ => (
+            vec![lib("Lib", "lib"), (PathBuf::from("main.gom"), "package Main\nimport Lib\n\ntrait Show {\n    fn show(Self) -> string;\n}\n\nimpl Show for int32 {\n    fn show(self: int32) -> string { \"main:\" + int32_to_string(self) }\n}\n\nfn describe[T: Show + Lib::Show](x: T) -> string { Show::show(x) + \"/\" + Lib::Show::show(x) }\n\nfn main() -> unit {\n    let _ = string_println(describe(7));\n    ()\n}\n".to_string())],
+            false,
+            "main:7/lib:7\n",
+        ),
+    };
+    let root = scratch.join(format!("c17s-{}-{}", std::process::id(), util::hex64(hash_str(label))));
+    let _ = std::fs::remove_dir_all(&root);
+    let order: Vec<usize> = (0..files.len()).collect();
+    if crate::projgen::materialize(&root, &files, &order).is_err() {
+        c.inconclusive("cannot materialise project");
+        return;
+    }
+    let srcs: String = files.iter().map(|(p, t)| format!("// ---- {}\n{}\n", p.display(), t)).collect();
+    runner::note_input(&srcs);
+    let whole = runner::guard(|| crate::projdrv::observe_whole(&root));
+    let _ = std::fs::remove_dir_all(&root);
+    let whole = match whole {
+        Ok(o) => o,
+        Err(p) => {
+            c.violation("C17:crash:same-named-traits".to_string(), format!("a project with same-named traits crashes the compiler at {}", p.site), json!({"label": label, "sources": srcs}));
+            return;
+        }
+    };
+    let accepted = whole.get("whole/result").map_or(false, |r| r == "ok");
+    if must_reject {
+        if accepted {
+            c.violation(format!("C17:accepted:dot-call-through-two-same-named-traits:{}", variant), "a dot call through two bounds that are same-named traits of different packages, both declaring the method, is accepted (it picks one silently)".to_string(), json!({"label": label, "sources": srcs}));
+        } else {
+            c.count("negatives_rejected", 1);
+            c.count("negatives_rejected:same-named-traits", 1);
+        }
+        return;
+    }
+    if !accepted {
+        let d = whole.get("whole/diagnostics").cloned().unwrap_or_default();
+        // the unchanged compiler may not support trait paths of this form: observed, not required
+        c.count("same_named_trait_controls_rejected", 1);
+        crate::diff::stash("C17", &format!("same-named-control-rejected:{}", crate::diff::msg_class(d.lines().nth(1).unwrap_or(""))), label, &srcs);
+        return;
+    }
+    let Some(go) = whole.get("whole/dump/go") else { return };
+    let gp = crate::goexec::parse(go);
+    if let crate::goexec::Vet::Accept = crate::goexec::vet(&gp) {
+        let r = crate::goexec::run(&gp, 1_000_000, gomini::Sched::Deterministic);
+        if matches!(r.term, Term::Ok) {
+            if r.stdout == expected {
+                c.count("same_named_trait_controls_agree", 1);
+            } else {
+                c.violation(format!("C17:same-named-traits:path-form-runs-other-trait:{}", variant), format!("path forms through same-named traits print {:?}, expected {:?}", r.stdout, expected), json!({"label": label, "sources": srcs}));
+            }
+        }
+    }
+}
+
 fn check_foreign_project(c: &mut Case, label: &str, rng: &mut Rng, scratch: &std::path::Path) {
     let (files, expected, cells) = build_foreign_project(rng);
     let root = scratch.join(format!("c17f-{}-{}", std::process::id(), util::hex64(hash_str(label))));
@@ -589,6 +679,13 @@ fn run(ctx: &mut Ctx) {
                     c.sample(json!({"workload": "call forms on receivers from an imported package", "types": FOREIGN.iter().map(|t| t.ty).collect::<Vec<_>>()}));
                 }
             });
+        }
+    }
+    for variant in 0..5usize {
+        if ctx.mine(899_900 + variant as u64) {
+            let scratch = crate::util::scratch_base();
+            let label = format!("same-named-traits/{}", variant);
+            ctx.case(&label.clone(), |c| check_same_named_traits(c, &label, variant, &scratch));
         }
     }
     if ctx.mine(899_999) {
